@@ -221,20 +221,28 @@ fn pieces<D: Store + Mk>(m: &Mon<D>, c: &Compiled<Mon<D>>) -> (Vec<(I, Option<us
 
 fn case<D: Store + Mk>(progs: &[String], order: &[usize], input: &V, run_between: &[bool], acc: &mut Acc) {
     // programs that do not build and run cleanly on their own are other properties' business
-    let mut alones: Vec<AloneInfo> = vec![];
+    // (a program that does not even build alone is kept as well: its failed build is residue for the others)
+    let mut alones: Vec<Option<AloneInfo>> = vec![];
     for p in progs {
         match alone::<D>(p, input) {
             Some(a) if matches!(a.out, RunOut::Value(..) | RunOut::Err(_)) => {
                 if matches!(a.out, RunOut::Err(_)) {
                     acc.count("programs_failing_at_run_time_used_as_residue");
                 }
-                alones.push(a)
+                alones.push(Some(a))
+            }
+            None => {
+                acc.count("programs_failing_to_build_used_as_residue");
+                alones.push(None)
             }
             _ => {
                 acc.count("program_not_clean_alone_skipped");
                 return;
             }
         }
+    }
+    if alones.iter().all(|a| a.is_none()) {
+        return;
     }
     acc.evals += 1;
     let mut m = fresh_mon::<D>();
@@ -268,7 +276,18 @@ fn case<D: Store + Mk>(progs: &[String], order: &[usize], input: &V, run_between
     for (pos, &pi) in order.iter().enumerate() {
         let src = &progs[pi];
         history.push(format!("build #{} {:?}", pi, src));
-        let c = match compile(src, &mut m) {
+        let compiled = compile(src, &mut m);
+        if alones[pi].is_none() {
+            // fails alone: whatever the attempt leaves in the shared object, the earlier programs stay as they were
+            m.settle();
+            acc.count("failed_builds_in_shared_object");
+            if compiled.is_ok() {
+                acc.count("builds_in_shared_object_but_not_alone");
+            }
+            check_undisturbed!(format!("the failed build of #{}", pi));
+            continue;
+        }
+        let c = match compiled {
             Ok(c) => c,
             Err(f) => {
                 acc.violation(
@@ -284,7 +303,7 @@ fn case<D: Store + Mk>(progs: &[String], order: &[usize], input: &V, run_between
         let st = stream_of(&m, &c);
         acc.add("instructions_compared", st.instrs.len() as u64);
         acc.add("jump_entries_compared", st.jumps.len() as u64);
-        if let Some((class, d)) = stream_diff(&st, &alones[pi].stream) {
+        if let Some((class, d)) = stream_diff(&st, &alones[pi].as_ref().unwrap().stream) {
             acc.violation(
                 format!("{}|{}|{}", class, if pos == 0 { "first" } else { "later" }, D::NAME),
                 format!("program #{} {:?} built at position {} of the shared object: {}. {}", pi, src, pos, d, describe(&history)),
@@ -302,8 +321,8 @@ fn case<D: Store + Mk>(progs: &[String], order: &[usize], input: &V, run_between
             history.push(format!("run #{}", qi));
             let out = run_built(&mut m, &q.c, input, 10_000);
             acc.count("interleaved_runs");
-            if out != alones[qi].out {
-                report_run::<D>(acc, progs, order, qi, &q.src, input, &out, &alones[qi].out, &describe(&history));
+            if out != alones[qi].as_ref().unwrap().out {
+                report_run::<D>(acc, progs, order, qi, &q.src, input, &out, &alones[qi].as_ref().unwrap().out, &describe(&history));
                 return;
             }
             check_undisturbed!(format!("running program #{}", qi));
@@ -316,8 +335,8 @@ fn case<D: Store + Mk>(progs: &[String], order: &[usize], input: &V, run_between
             history.push(format!("run #{}", qi));
             let out = run_built(&mut m, &q.c, input, 10_000);
             acc.count("final_runs_compared");
-            if out != alones[qi].out {
-                report_run::<D>(acc, progs, order, qi, &q.src, input, &out, &alones[qi].out, &describe(&history));
+            if out != alones[qi].as_ref().unwrap().out {
+                report_run::<D>(acc, progs, order, qi, &q.src, input, &out, &alones[qi].as_ref().unwrap().out, &describe(&history));
                 return;
             }
         }
@@ -384,6 +403,14 @@ pub fn run(ctx: &Ctx) -> (Acc, String, bool) {
         // fails half way through a conversion on one of the stores: residue of a failed execution
         "(\"abcde\" <~ 1..9) ~# \"\"",
         "\"xyz\" (\"abcde\" <~ 2..20) ~# \"\"",
+        // builds that fail (an else without a conditional, a dangling separator, a lone operator): what the attempt
+        // leaves in the shared object is residue for the programs around it
+        "5 |> 6",
+        "5 ; ;",
+        "1 + (2 |> 3)",
+        // no significant token at all: its entry must still be its own
+        "",
+        "  @@ nothing here",
     ];
     let mut cache: Vec<Vec<E>> = vec![vec![]];
     let mut small: Vec<String> = vec![];
@@ -454,7 +481,7 @@ pub fn run(ctx: &Ctx) -> (Acc, String, bool) {
 }
 
 pub const ASSUMPTIONS: &[&str] = &[
-    "a program is only put into a shared object when, built alone, it builds and either runs to a value with its stacks restored or fails with a run-time error (then the same class of error is expected in the shared object, the stacks are unwound through the public pops as a host would, and what the failed run left behind is part of the residue); runs are started the documented way: cursor := jump entry reported by build, input pushed on the value stack",
+    "a program is put into a shared object when, built alone, it either fails to build (then only its failed build is replayed in the shared object, as residue) or builds and either runs to a value with its stacks restored or fails with a run-time error (then the same class of error is expected in the shared object, the stacks are unwound through the public pops as a host would, and what the failed run left behind is part of the residue); runs are started the documented way: cursor := jump entry reported by build, input pushed on the value stack",
     "'refers only to its own pieces' is decided by comparing the rebased stream with the stream of the same source built alone: jump operands and jump targets relative to the build's own ranges, data operands by the value they read back as (an interned equal constant is accepted)",
     "expression values in results are compared by their jump entry relative to the program's first entry",
 ];
